@@ -135,4 +135,28 @@ func init() {
 		Assumptions: []string{"in-memory file system model behind os.File (DESIGN.md 2.4); encoding/binary as a typed codec", "chunks are non-empty; chunk times are non-decreasing (t0 + chosen offsets); content types from a fixed set", "oracle: a Go map from stream id to the last stored chunk list"},
 		Outside: []string{"the >= 16 MiB in-session compaction trigger inside setData (compaction is reached through reopen)", "concurrent readers", "more than 2 stream ids / 2 chunks per list in the rich harness"},
 	}
+
+	P := func(kv ...int) map[string]int {
+		keys := []string{"minstreams", "streams", "packets", "payload", "gaps", "files", "starts", "idxbases", "ipversions", "protocols", "idxsteps"}
+		m := map[string]int{}
+		for i, v := range kv {
+			m[keys[i]] = v
+		}
+		return m
+	}
+	registry["C01"] = CheckSpec{Property: "C01",
+		Harnesses: []HarnessSpec{
+			{Pkg: ix, Func: "ZZ_C01_HostGroup", Quick: tier(map[string]int{"hosts": 2}), Thorough: tier(map[string]int{"hosts": 3}),
+				Bounds: "one step add(x);pop from an arbitrary valid host group (hostSize 4 or 16, 0..hosts distinct hosts, all bytes symbolic)"},
+			{Pkg: ix, Func: "ZZ_C01_RoundTrip", Desc: "one stream, up to 3 packets", Quick: tier(P(1, 1, 3, 1, 1, 1, 2, 2, 1, 2, 1)), Thorough: tier(P(1, 1, 3, 2, 2, 1, 3, 3, 2, 2, 2)),
+				Bounds: "write+Finalize+NewReader+read back: ids, ports, addresses (v4/v6), protocol flag, payload bytes, packet-index steps symbolic; packet count, directions, payload lengths 0..2, start time, packet-index base (incl. >= 2^32) enumerated"},
+			{Pkg: ix, Func: "ZZ_C01_RoundTrip", Desc: "one stream, packet timing variants", Quick: tier(P(1, 1, 2, 1, 4, 1, 3, 1, 1, 1, 1)), Thorough: tier(P(1, 1, 3, 1, 4, 2, 3, 1, 1, 1, 1)),
+				Bounds: "gaps of 1us, 0, 30ms, 2s between packets"},
+			{Pkg: ix, Func: "ZZ_C01_RoundTrip", Desc: "two streams, one packet each, same capture, index bases in different 2^32 windows", Quick: tier(P(2, 2, 1, 1, 1, 1, 2, 2, 1, 1, 1)), Thorough: tier(P(2, 2, 1, 2, 1, 2, 3, 3, 1, 1, 1))},
+			{Pkg: ix, Func: "ZZ_C01_RoundTrip", Desc: "two streams, up to 2 packets each, two captures", Quick: tier(P(2, 2, 2, 0, 1, 2, 1, 1, 1, 1, 1)), Thorough: tier(P(2, 2, 2, 1, 1, 2, 1, 1, 1, 1, 1))},
+			{Pkg: ix, Func: "ZZ_C01_SkipCounter", Quick: tier(nil), Bounds: "1 / 254 / 255 / 256 / 300 payload-less packets between two payload packets (sizes concretised), payload bytes symbolic"},
+		},
+		Assumptions: []string{"in-memory file system + typed encoding/binary codec + byte view of (*[N]byte)(unsafe.Pointer(&obj))", "stream validity as the importer produces it: >= 1 packet, non-decreasing timestamps, gaps < 2^32 us, payload indexes increasing, both addresses of one stream of equal length, distinct stream ids, distinct first source packets", "timestamps are concrete sample values (base 2023-11-14, offsets enumerated)"},
+		Outside: []string{"more than 2 streams / 3 packets per stream with symbolic content", "chunks above 2 bytes (packet splitting at 64 KiB)", "host-group overflow (16384 hosts)", "MarshalJSON"},
+	}
 }
